@@ -177,9 +177,9 @@ def nestToks : List Tok := [⟨2, 0, [102], 1, 0⟩, ⟨3, 2, [40], 1, 1⟩, ⟨
 /-- the quantification over reachable configurations is not limited to depth 0: for the C
 header pattern there is a reachable configuration at nesting depth 2 -/
 example : ∃ hp ∈ Gen.c.pats, ∃ D cfg, compileTok hp.expr = .ok D ∧ Reach D cfg ∧
-    getDepth cfg.2 (.balanced (.value [40]) (.value [41])) = 2 := by
+    getDepth cfg.2 (.balanced (.symbol [40]) (.symbol [41])) = 2 := by
   have h : Gen.c.pats.any (fun hp =>
-      depthWitness hp.expr nestToks (.balanced (.value [40]) (.value [41])) 2) = true := by
+      depthWitness hp.expr nestToks (.balanced (.symbol [40]) (.symbol [41])) 2) = true := by
     decide +kernel
   obtain ⟨hp, hhp, hw⟩ := List.any_eq_true.1 h
   exact ⟨hp, hhp, depthWitness_spec hw⟩
